@@ -2,9 +2,9 @@
    pack_ok, expected result of unpack), the proofs are in Proofs.PackBits / PackRoundtrip / PackRoundtripGraph /
    PackRoundtripMol / PackLayout / PackElements / PackProofs / PackRxn / PackRxnLen / PackV0 / F16Proofs. *)
 From Coq Require Import ZArith List Bool.
-From Model Require Import PyBase Graph StereoRegistry Pack PackSpec PackSpecV0 PackApi PackRxnApi PackStereo PackStereoSpec F16.
+From Model Require Import PyBase Graph StereoRegistry Pack PackSpec PackSpecV0 PackApi PackRxnApi PackStereo PackStereoSpec PackMol F16.
 From Gen Require Import Elements.
-From Proofs Require Import PackBits PackRoundtrip PackRoundtripGraph PackRoundtripMol PackLayout PackElements PackApiProofs PackProofs PackRxn PackRxnLen PackV0 PackV0Unpack PackStereoProofs PackStereoDisjoint PackApiRegistry PackApiExt F16Proofs.
+From Proofs Require Import PackBits PackRoundtrip PackRoundtripGraph PackRoundtripMol PackLayout PackElements PackApiProofs PackProofs PackRxn PackRxnLen PackV0 PackV0Unpack PackStereoProofs PackStereoDisjoint PackApiRegistry PackMolProofs PackApiExt F16Proofs.
 Import ListNotations.
 Open Scope Z_scope.
 
@@ -363,3 +363,38 @@ Theorem C10_mol_pack_check_complete_partial : forall m, mol_pack_check m = Ok tt
   forall a, In a (pm_atoms m) -> 1 <= pa_n a < 4096 /\ (length (pa_nbrs a) <= 15)%nat.
 Proof. exact mol_pack_check_complete_partial. Qed.
 Print Assumptions C10_mol_pack_check_complete_partial.
+
+(* MoleculeContainer.pack / unpack ON ONE OBJECT (Model.PackMol): the molecule is a Graph.mol (_atoms / _bonds), nothing else
+   is an input besides the four coordinate bytes per atom.  The record read by the .pyx packer (atoms, neighbour dicts,
+   _cis_trans_count, _stereo_cis_trans_terminals) is derived from the molecule; the registered cumulene paths are
+   COMPUTED by the registry model on the packed molecule and again on the DECODED molecule before its labels are attached
+   (as the code does); the result is a Graph.mol.  For every molecule satisfying the executable precondition mc_ok (well
+   formed, not empty, within the format limits, labelled bonds registered) unpack (pack g ++ anything) is g itself: atoms
+   in order with element, isotope, charge, radical, hydrogens, atom stereo; neighbour tables in order with orders and
+   cis/trans labels; the coordinate bytes; the pack length *)
+Theorem C10_mc_roundtrip : forall (g : mol) (xyf : Z -> list Z) (suf : list Z), mc_ok g xyf = true ->
+  exists bytes, mc_pack g xyf = Ok bytes /\
+    mc_unpack (bytes ++ suf) = Ok (g, map xyf (ids g), Z.of_nat (length bytes)).
+Proof. exact mc_roundtrip. Qed.
+Print Assumptions C10_mc_roundtrip.
+
+(* the registry of the decoded molecule (no bond labels yet) is the registry of the original: the construction never
+   looks at bond stereo labels (this was an assumption checked by the correspondence before) *)
+Theorem C10_reg_paths_erase : forall g, reg_paths (erase g) = reg_paths g.
+Proof. exact reg_paths_erase. Qed.
+Print Assumptions C10_reg_paths_erase.
+
+(* both directions of a bond carry the same label in a well formed molecule (one Bond object) *)
+Theorem C10_wf_labels_sym : forall g xyf, wf_mol g = true -> labels_sym_b (atoms_of_mol g xyf) = true.
+Proof. exact wf_labels_sym. Qed.
+Print Assumptions C10_wf_labels_sym.
+
+(* non-vacuity, evaluated: F/C(Cl)=C=C=C(/F)Cl with a labelled central bond, an isotope, a charged radical *)
+Theorem C10_mc_roundtrip_example :
+  mc_ok ex_mol ex_xy = true /\ reg_paths ex_mol = Ok [[2; 4; 5; 6]] /\
+  match mc_pack ex_mol ex_xy with
+  | Ok b => match mc_unpack b with Ok (g, xy, sz) => mol_eqb g ex_mol && (sz =? 104) && (Z.of_nat (length b) =? 104) | Err _ => false end
+  | Err _ => false
+  end = true.
+Proof. exact mc_roundtrip_example. Qed.
+Print Assumptions C10_mc_roundtrip_example.
